@@ -105,7 +105,7 @@ Close Scope string_scope.
    first, the crate's policy obtains its first candidate or nothing: never a smaller chunk *)
 Theorem C18_policy_first_candidate_or_nothing : forall k answers b,
   small_consts k -> limit b = None -> cur_layout_size k b - k_footer k < 576460752303423488 ->
-  granted answers -> acq_at (policy k answers) b (grows k).
+  granted answers -> forall o, acq_at (policy k answers) b o (grows k).
 Proof. exact policy_grows. Qed.
 
 Theorem C18_new_chunk_bounded : forall k answers b l g data reqs,
@@ -120,7 +120,7 @@ Proof. exact policy_chunk_bounded. Qed.
 (* any history, any acquirers: if every chunk granted at least doubled the current one, every
    reachable state's chunk list is a doubling chain *)
 Theorem C18_history_doubling_chain : forall k h b,
-  hist_ok k (grows k) b h -> Chain k b -> Chain k (run k b h).
+  hist_ok k (grows k) any_limit b h -> Chain k b -> Chain k (run k b h).
 Proof. exact growth_chain. Qed.
 
 (* the crate's policy over whole histories: the number of chunks held is logarithmic in the size of
